@@ -2,3 +2,4 @@
 From MV Require Import Base Regex Typing Py PyObj Glue.
 From Coq Require Import String.
 Definition check_struct_src (c : role * enzyme * string * string * string) : bool := true.
+Definition check_transcribe_src (c : string * string) : bool := true.
